@@ -100,11 +100,22 @@ def self_check(sched_factory):
     # only the seams are inspected: nothing here may depend on behaviour the
     # property is about (a broken close() must not look like a lost seam)
     aio = lio.AudioIO()
-    box["lock"] = type(aio.lock).__name__
-    box["halting"] = type(aio.halting).__name__
     th = lio.AudioThread(aio, [0.0, 0.0], chunk_size=1)
-    box["go"] = type(th.go).__name__
-    box["tlock"] = type(th.lock).__name__
+    # every synchronisation primitive found on the two objects (whatever the
+    # attributes are called) must be a simulated one
+    import threading as real_threading
+    real_kinds = (type(real_threading.Lock()), type(real_threading.RLock()),
+                  real_threading.Event, real_threading.Condition,
+                  real_threading.Semaphore)
+    prims = {}
+    for owner, obj in (("aio", aio), ("thread", th)):
+      for attr, val in sorted(vars(obj).items()):
+        if attr.startswith("_") and owner == "thread":
+          continue          # threading.Thread's own private state
+        if isinstance(val, real_kinds) or \
+           type(val).__name__.startswith("Sim"):
+          prims["%s.%s" % (owner, attr)] = type(val).__name__
+    box["prims"] = prims
     box["pa"] = type(aio._pa).__name__
     box["write"] = getattr(th.write_stream, "__name__", "?")
     box["start"] = lio.AudioThread.start.__name__
@@ -115,9 +126,13 @@ def self_check(sched_factory):
     sched.run(main)
   finally:
     backend.set_world(None)
-  want = {"lock": "SimLock", "halting": "SimLock", "go": "SimEvent",
-          "tlock": "SimLock", "pa": "FakePyAudio",
-          "write": "fake_write_stream", "start": "sim_start",
-          "join": "sim_join"}
-  if box != want:
-    raise HarnessError("seam self-check failed: %r" % (box,))
+  want = {"pa": "FakePyAudio", "write": "fake_write_stream",
+          "start": "sim_start", "join": "sim_join"}
+  # whatever synchronisation primitives the code under test chooses for
+  # these attributes, they must be simulator-owned ones (the kind is the
+  # code's own business: a change from an Event to a Lock is not a lost seam)
+  prims = box.pop("prims", {})
+  sim_owned = len(prims) >= 2 and all(v.startswith("Sim")
+                                      for v in prims.values())
+  if not sim_owned or any(box.get(k) != v for k, v in want.items()):
+    raise HarnessError("seam self-check failed: %r %r" % (box, prims))
